@@ -852,7 +852,7 @@ func (c *Conn) dispatch(fr *FrameHeader) bool {
 	// would wedge the RoundTrip that is waiting to take it back.
 	defer r.release()
 
-	err := c.readStream(fr, r.Response)
+	err := c.readStream(fr, r)
 	if err == nil {
 		if fr.Flags().Has(FlagEndStream) {
 			c.finish(r, fr.Stream(), nil)
@@ -1450,11 +1450,12 @@ func (c *Conn) handlePing(ping *Ping) {
 	c.writeOut(fr)
 }
 
-func (c *Conn) readStream(fr *FrameHeader, res *fasthttp.Response) (err error) {
+func (c *Conn) readStream(fr *FrameHeader, r *Ctx) (err error) {
+	res := r.Response
+
 	switch fr.Type() {
 	case FrameHeaders, FrameContinuation:
-		h := fr.Body().(FrameWithHeaders)
-		err = c.readHeader(h.Headers(), res)
+		err = c.readHeader(fr, r)
 	case FrameResetStream:
 		// The server gave up on the stream. Without this the request would sit
 		// there until MaxResponseTime, or forever if that check is disabled.
@@ -1504,26 +1505,50 @@ func (c *Conn) updateWindow(streamID uint32, size int) {
 	c.writeOut(fr)
 }
 
-func (c *Conn) readHeader(b []byte, res *fasthttp.Response) error {
+func (c *Conn) readHeader(fr *FrameHeader, r *Ctx) error {
 	var err error
 	hf := AcquireHeaderField()
 	defer ReleaseHeaderField(hf)
 
 	dec := c.dec
+	res := r.Response
 
-	var regularSeen bool
+	// Only a HEADERS frame opens a header block, and a dynamic table size
+	// update may only come at its very start.
+	if fr.Type() == FrameHeaders {
+		r.hdrPending = r.hdrPending[:0]
+		r.hdrFields = 0
+		r.hdrRegular = false
+	}
+
+	blockStart := fr.Type() == FrameHeaders
+
+	// a field that the previous frame cut in two is completed by this one
+	b := append(r.hdrPending, fr.Body().(FrameWithHeaders).Headers()...)
+	r.hdrPending = b[:0]
 
 	for len(b) > 0 {
-		b, err = dec.Next(hf, b)
+		pb := b
+
+		b, err = dec.nextField(hf, blockStart, r.hdrFields, b)
 		if err != nil {
+			// The field runs past the end of this frame: the rest is in the
+			// CONTINUATION frame that has to follow.
+			if errors.Is(err, ErrUnexpectedSize) && !fr.Flags().Has(FlagEndHeaders) {
+				r.hdrPending = append(r.hdrPending, pb...)
+				return nil
+			}
+
 			return err
 		}
+
+		r.hdrFields++
 
 		// A response carries exactly one pseudo-header, :status, and it must
 		// come before any regular field.
 		// https://httpwg.org/specs/rfc7540.html#rfc.section.8.1.2.4
 		if hf.IsPseudo() {
-			if regularSeen {
+			if r.hdrRegular {
 				return errPseudoAfterRegular
 			}
 
@@ -1541,7 +1566,7 @@ func (c *Conn) readHeader(b []byte, res *fasthttp.Response) error {
 			continue
 		}
 
-		regularSeen = true
+		r.hdrRegular = true
 
 		if hasUpperCase(hf.KeyBytes()) {
 			return errUpperCaseHeader
